@@ -132,6 +132,7 @@ PROPS["C20"] = {
 }
 
 PROPS["C16"] = {
+    "needs_cli": True,
     "shards": {"quick": 16, "thorough": 16},
     "offline": _lazy("c16"),
     "rule": ("doubles (decade / power-of-two / threshold boundaries +- ulps, 15-digit carry patterns, random bit patterns) pushed through five textual paths: P1 to_string->to_number, "
